@@ -9,10 +9,12 @@ import (
 	"sync"
 	"time"
 
+	"github.com/mgtv-tech/redis-GunYu/pkg/rdb"
 	"github.com/mgtv-tech/redis-GunYu/syncer"
 
 	"verifsim/rdbgen"
 	"verifsim/simredis"
+	"verifsim/simrt"
 )
 
 // C13 — bidirectional sync never echoes its own writes nor swallows foreign ones. DESIGN.md §3 C13.
@@ -73,6 +75,8 @@ type c13sim struct {
 	applTxn     map[string]map[int]bool
 	marker      []byte // a marker value observed in the wild (reused as a client value)
 	multiDB     bool   // clients also write in database 1
+	bigTxn      bool   // this run may contain one client transaction of 1000+ commands
+	bigTxnDone  bool
 	db1Excluded bool   // ... which both links exclude
 }
 
@@ -212,6 +216,11 @@ func (c *c13sim) clientOp(s *c13site) {
 	if g.Choose("optxn", 3) == 0 {
 		op.txn = true
 		n = 1 + g.Choose("txnlen", 4)
+		if c.bigTxn && !c.bigTxnDone && g.Choose("bigtxn", 4) == 0 {
+			// one bulk-loader sized transaction per run (longer than any internal slice or batch bound)
+			n, c.bigTxnDone = 1000+g.Choose("bigtxnlen", 700), true
+			simrt.Probe("c13_big_client_transaction")
+		}
 	}
 	for k := 0; k < n; k++ {
 		sh := c13shapes[g.Choose("shape", len(c13shapes))]
@@ -233,7 +242,11 @@ func (c *c13sim) clientOp(s *c13site) {
 		c.byKey[cmd[1]] = op
 	}
 	c.ops = append(c.ops, op)
-	c.r.Logf("client %s: %s txn=%v %v", s.name, op.id, op.txn, op.cmds)
+	if len(op.cmds) > 16 {
+		c.r.Logf("client %s: %s txn=%v %d commands, first %v", s.name, op.id, op.txn, len(op.cmds), op.cmds[:4])
+	} else {
+		c.r.Logf("client %s: %s txn=%v %v", s.name, op.id, op.txn, op.cmds)
+	}
 	cl := s.client
 	if c.multiDB && g.Choose("opdb", 4) == 0 {
 		cl = s.client1
@@ -346,6 +359,7 @@ func runC13(r *Run, stratum string) *Violation {
 		flavour = "5"
 	}
 	c.multiDB = stratum != "snapshot" && g.Choose("multidb", 2) == 0
+	c.bigTxn = stratum != "snapshot" && g.Choose("bigtxnrun", 10) == 0
 	// with two databases in use, both links may exclude database 1 (output.filter.dbBlacklist): what clients write
 	// there stays local, everything else crosses over exactly once as before
 	c.db1Excluded = c.multiDB && g.Choose("db1excluded", 3) == 0
@@ -380,6 +394,26 @@ func runC13(r *Run, stratum string) *Violation {
 		c.ab.rdb, _ = rdbgen.Encode(ds, rdbgen.EncodeOpts{})
 		if g.Choose("snapexpand", 3) == 0 {
 			c.ab.cfg.NoRestore = true // native commands instead of RESTORE payloads
+		}
+		if g.Choose("snapchunk", 3) == 0 {
+			// values above a (lowered) threshold are replayed in several chunks, each its own marked transaction
+			old := rdb.VerifSetMaxBinEntryBuffer(32 << g.Choose("snapchunkat", 5))
+			defer rdb.VerifSetMaxBinEntryBuffer(old)
+			simrt.Probe("c13_snapshot_chunked")
+		}
+		if g.Choose("snapprepop", 3) == 0 {
+			// site B already holds some of these keys (written there before the links existed, so not in B's stream):
+			// the default key-exists policy replaces them - inside the marked transaction, or B's master propagates it
+			for _, k := range ds.Keys {
+				if g.Choose("snapprepopkey", 2) == 0 {
+					if g.Choose("snapprepopkind", 2) == 0 {
+						c.b.srv.SetString(0, string(k.Name), "held-before")
+					} else {
+						c.b.srv.SetHash(0, string(k.Name), map[string]string{"held": "before"})
+					}
+				}
+			}
+			simrt.Probe("c13_snapshot_target_prepopulated")
 		}
 		r.Logf("snapshot of site A: %s", ds.Summary(6))
 	}
@@ -462,7 +496,14 @@ func runC13(r *Run, stratum string) *Violation {
 		endA, endB := int64(-1), int64(-1)
 		// the round budget covers the backlog the clients left behind (a unit per client write, a few requests per unit,
 		// one request per session and round) plus 400 rounds; an echo that keeps going exhausts any budget
-		for round := 0; round < 400+40*maxOps && c.viol == nil; round++ {
+		// the backlog is counted in commands: a link needs about one round per command it still has to apply (one
+		// request per session and round), a bulk transaction of 1500 commands as many as 1500 single writes
+		ncmds := 0
+		for _, op := range c.ops {
+			ncmds += len(op.cmds)
+		}
+		quiesceRounds := 400 + 40*maxOps + 8*ncmds
+		for round := 0; round < quiesceRounds && c.viol == nil; round++ {
 			r.Settle()
 			progressed := false
 			for _, l := range links {
@@ -500,7 +541,7 @@ func runC13(r *Run, stratum string) *Violation {
 			}
 		}
 		if c.viol == nil && quiet < 12 {
-			c.setViolation("C13.no_quiescence", "the exchange does not quiesce", "%d rounds after the last of %d client writes (each round: every session executes one request, or 100 ms pass) the replication streams still grow (A=%d B=%d)", 400+40*maxOps, len(c.ops), c.a.srv.Repl.End(), c.b.srv.Repl.End())
+			c.setViolation("C13.no_quiescence", "the exchange does not quiesce", "%d rounds after the last of %d client writes (each round: every session executes one request, or 100 ms pass) the replication streams still grow (A=%d B=%d)", quiesceRounds, len(c.ops), c.a.srv.Repl.End(), c.b.srv.Repl.End())
 		}
 	}
 	if c.viol == nil {
